@@ -184,6 +184,12 @@ namespace
             return {};
         }
     }
+    // The operator tables are hash maps over keys that hold process-wide, lazily assigned type ids: their order depends
+    // on what other instances registered before. Listings are sorted (per kind), so that the same operators give the same listing.
+    void sort_listing(std::vector<value>& list, size_t from)
+    {
+        std::sort(list.begin() + from, list.end(), [](value::cref l, value::cref r) -> bool { return l.to_string_sqf() < r.to_string_sqf(); });
+    }
     value cmds___(runtime& runtime)
     {
         std::vector<value> outarr;
@@ -195,6 +201,8 @@ namespace
                     pair->first.name
             });
         }
+        sort_listing(outarr, 0);
+        auto first_unary = outarr.size();
         str = "u";
         for (auto pair = runtime.sqfop_unary_begin(); pair != runtime.sqfop_unary_end(); pair++)
         {
@@ -204,6 +212,8 @@ namespace
                     pair->first.right_type.to_string()
             });
         }
+        sort_listing(outarr, first_unary);
+        auto first_binary = outarr.size();
         str = "b";
         for (auto pair = runtime.sqfop_binary_begin(); pair != runtime.sqfop_binary_end(); pair++)
         {
@@ -214,6 +224,7 @@ namespace
                     pair->first.right_type.to_string()
             });
         }
+        sort_listing(outarr, first_binary);
         return outarr;
     }
     value cmdsimplemented___(runtime& runtime)
@@ -229,6 +240,8 @@ namespace
                     pair->first.name
             });
         }
+        sort_listing(outarr, 0);
+        auto first_unary = outarr.size();
         str = "u";
         for (auto pair = runtime.sqfop_unary_begin(); pair != runtime.sqfop_unary_end(); pair++)
         {
@@ -240,6 +253,8 @@ namespace
                     pair->first.right_type.to_string()
             });
         }
+        sort_listing(outarr, first_unary);
+        auto first_binary = outarr.size();
         str = "b";
         for (auto pair = runtime.sqfop_binary_begin(); pair != runtime.sqfop_binary_end(); pair++)
         {
@@ -252,6 +267,7 @@ namespace
                     pair->first.right_type.to_string()
             });
         }
+        sort_listing(outarr, first_binary);
         return outarr;
     }
     value cmdsvm___(runtime& runtime)
@@ -267,6 +283,8 @@ namespace
                     pair->first.name
             });
         }
+        sort_listing(outarr, 0);
+        auto first_unary = outarr.size();
         str = "u";
         for (auto pair = runtime.sqfop_unary_begin(); pair != runtime.sqfop_unary_end(); pair++)
         {
@@ -278,6 +296,8 @@ namespace
                     pair->first.right_type.to_string()
             });
         }
+        sort_listing(outarr, first_unary);
+        auto first_binary = outarr.size();
         str = "b";
         for (auto pair = runtime.sqfop_binary_begin(); pair != runtime.sqfop_binary_end(); pair++)
         {
@@ -290,6 +310,7 @@ namespace
                     pair->first.right_type.to_string()
             });
         }
+        sort_listing(outarr, first_binary);
         return outarr;
     }
     value help___string(runtime& runtime, value::cref right)
